@@ -26,7 +26,7 @@ func init() {
 		Rule: "per generated namespace-heavy document (several URIs, document prefixes that clash with the query's, alias prefixes, local-name collisions, namespaced attributes): random binding environments (prefix->URI maps with aliases and rebinding of document prefixes) x random paths with prefixed/unprefixed/p:*/*:x name tests, evaluated by the library and the reference model; the same AST under a second, consistently renamed environment must give the identical node list; the document re-serialised as XML twice with different prefixes (ReadXml) must give results that correspond node for node; " +
 			"variables of all four types incl. node-sets in document/reverse order/empty used inside expressions and as the whole expression (must be exactly the bound value: same cursors, same order); user functions in no namespace and in namespaces incl. ones shadowing count/string/position, observed by a trace monitor (argument values in order, Context.Result() node, ContextPosition()) against the model's own trace, and the same namespace/variable/function bindings passed to Unmarshal with the queries as struct tags; evaluated references to an unbound prefix (name test, variable, function), variable or function must yield an error. distinct_nontrivial = distinct (environment signature, expression class, outcome class)",
 		Assumptions: []string{"name tests on the namespace axis are outside the statement"},
-		NCases:      func(tier string) int { return map[string]int{"quick": 3000, "thorough": 80000}[tier] },
+		NCases:      func(tier string) int { return map[string]int{"quick": 3000, "thorough": 50000}[tier] },
 		Case:        c11Case,
 	})
 }
